@@ -582,6 +582,14 @@ def regex_sites(model):
                 except NotConst as e:
                     if f.qname == "common.MetadataBase._assert_matches_re":
                         continue
+                    # a pattern that is a parameter of a helper (or drawn from one): every call site must pass constants, or pass
+                    # on its own parameter, ending at _assert_matches_re (whose call sites are folded by assertions_of)
+                    pd = _param_derived(f, node.args[0])
+                    extra = []
+                    if pd is not None and _pattern_param_flows(model, f, pd, 0, extra):
+                        for (pat_, g_, ln_) in extra:
+                            out.append(RegexSite(pat_, g_.qname, ln_, "passed to %s(%s)" % (f.node.name, d[3:]), module=g_.module.name))
+                        continue
                     # a pattern built from run-time data: try again with every re.escape(<expr>) replaced by a literal
                     esc = _fold_with_escapes(model, node.args[0], f.module)
                     site = RegexSite(esc if esc is not None else ast.unparse(node.args[0]), f.qname, node.lineno, d[3:], module=f.module.name)
@@ -607,6 +615,72 @@ def regex_sites(model):
     for s in out:
         uniq.setdefault((s.where, s.pattern, s.how), s)
     return sorted(uniq.values(), key=lambda s: (s.module, s.lineno, s.pattern))
+
+
+def _param_derived(f, node):
+    """the parameter of ``f`` the expression is (or is drawn from by a for loop): its name, else None"""
+    if not isinstance(node, ast.Name):
+        return None
+    params = [a.arg for a in f.node.args.args + f.node.args.kwonlyargs]
+    if node.id in params:
+        # not reassigned in the function
+        for n in ast.walk(f.node):
+            if isinstance(n, ast.Name) and n.id == node.id and isinstance(n.ctx, ast.Store):
+                return None
+        return node.id
+    srcs = set()
+    for n in ast.walk(f.node):
+        if isinstance(n, ast.Name) and n.id == node.id and isinstance(n.ctx, ast.Store):
+            srcs.add(None)
+    loops = [n for n in ast.walk(f.node) if isinstance(n, (ast.For, ast.comprehension)) and isinstance(n.target, ast.Name)
+             and n.target.id == node.id]
+    if len(loops) == 1 and len(srcs) == 1 and isinstance(loops[0].iter, ast.Name) and loops[0].iter.id in params:
+        return loops[0].iter.id
+    return None
+
+
+def _pattern_param_flows(model, f, param, depth, found):
+    if f.qname == "common.MetadataBase._assert_matches_re":
+        return True
+    if depth > 3:
+        return False
+    name = f.node.name
+    params = [a.arg for a in f.node.args.args]
+    is_method = f.cls is not None and name not in f.cls.staticmethods
+    idx = params.index(param) - (1 if is_method else 0) if param in params else None
+    sites = []
+    for g in model.all_functions():
+        for n in ast.walk(g.node):
+            if isinstance(n, ast.Call) and ((isinstance(n.func, ast.Attribute) and n.func.attr == name)
+                                            or (isinstance(n.func, ast.Name) and n.func.id == name)):
+                sites.append((g, n))
+    if not sites:
+        return False
+    for g, n in sites:
+        arg = None
+        for k in n.keywords:
+            if k.arg == param:
+                arg = k.value
+        if arg is None and idx is not None and 0 <= idx < len(n.args) and not any(isinstance(a, ast.Starred) for a in n.args):
+            arg = n.args[idx]
+        if arg is None:
+            return False
+        try:
+            v = model.fold(arg, g.module)
+            items = v if isinstance(v, (list, tuple)) else [v]
+            for x in items:
+                if isinstance(x, RegexConst):
+                    x = x.pattern
+                if not isinstance(x, str):
+                    return False
+                found.append((x, g, n.lineno))
+            continue
+        except NotConst:
+            pass
+        pd = _param_derived(g, arg)
+        if pd is None or not _pattern_param_flows(model, g, pd, depth + 1, found):
+            return False
+    return True
 
 
 def module_regex(model, modname, name):
@@ -708,6 +782,17 @@ class Emit(object):
     def __repr__(self):
         return "<emit %s %s := %s |%s>" % (self.kind, "/".join(T.show(p) for p in self.path), T.show(self.value)[:100],
                                            [(T.show(g[0])[:60], g[1]) for g in self.guards])
+
+
+def emit_raw(e):
+    """the gated (path-sensitive) form of the value an Emit writes, for Scenario.term(); None when it is not a single term"""
+    if e.kind == "set" and e.ev.kind == "call" and len(e.ev.raw[2]) >= 3:
+        return e.ev.raw[2][2]
+    if e.kind == "store" and e.ev.kind == "store":
+        return e.ev.raw
+    if e.kind == "append" and e.ev.kind == "call" and e.ev.raw[2]:
+        return e.ev.raw[2][0]
+    return None
 
 
 def writer_emits(model, fref, out_index=1):
@@ -944,9 +1029,19 @@ def fold_small(t):
     if t[0] == "call" and t[1] == ("global", "len") and len(t[2]) == 1:
         v = fold_small(t[2][0])
         return len(v) if isinstance(v, (str, list, tuple)) else None
-    if t[0] == "binop" and t[1] in ("+", "-"):
+    if t[0] == "binop" and t[1] in ("+", "-", "*", "**", "//", "<<"):
         a, b = fold_small(t[2]), fold_small(t[3])
-        if isinstance(a, (int, float)) and isinstance(b, (int, float)):
+        if isinstance(a, int) and isinstance(b, int) and t[1] in ("*", "**", "//", "<<") and not isinstance(a, bool):
+            if t[1] == "*":
+                return a * b
+            if t[1] == "**" and 0 <= b <= 64 and abs(a) <= 1 << 32:
+                return a ** b
+            if t[1] == "//" and b != 0:
+                return a // b
+            if t[1] == "<<" and 0 <= b <= 64:
+                return a << b
+            return None
+        if isinstance(a, (int, float)) and isinstance(b, (int, float)) and t[1] in ("+", "-"):
             return a + b if t[1] == "+" else a - b
         if isinstance(a, str) and isinstance(b, str) and t[1] == "+":
             return a + b
@@ -1355,3 +1450,52 @@ def version_terms(cx):
 def at_version(cx, version, **kw):
     """the scenario 'the document has format version <version>'"""
     return Scenario(cx, subst=dict((t, ("const", tuple(version))) for t in version_terms(cx)), **kw)
+
+
+# ---- reaching definitions with their path conditions -------------------------------------------------------------------------
+class Cand(object):
+    """one value that can be stored by ``store`` together with the conditions under which that value was chosen"""
+    def __init__(self, value, guards, loops, store, src, terminal):
+        self.value, self.guards, self.loops, self.store, self.src, self.terminal = value, guards, loops, store, src, terminal
+
+    def __repr__(self):
+        return "<cand %s | %s | loops=%d%s>" % (T.show(self.value)[:80], [(T.show(g[0])[:50], g[1]) for g in self.guards], len(self.loops),
+                                               " terminal" if self.terminal else "")
+
+
+def flows_to(cx, store):
+    """the alternatives of the value written by ``store`` (a store event), each with the guards and loops of the assignment that
+    produced it (a bind of a local, or a ``return`` of an inlined helper) joined with those of the store itself.  Guards of the
+    store that merely test the merged value (``if found is not None``) are dropped for the alternatives they admit."""
+    v = T.phi_form(store.value)
+    alts = list(v[1]) if v[0] == "phi" else [v]
+    out = []
+    for a in alts:
+        own = []
+        skip = False
+        for g in store.guards:
+            g = (T.phi_form(g[0]), g[1])
+            if v[0] == "phi" and T.contains(g[0], lambda x: x == v):
+                # a test of the merged value: decide it for this alternative when it is a None/truth test
+                t, pol = canon_guard(g)
+                if t == canon_guard((("cmp", ("is",), (v, ("const", None))), True))[0]:
+                    if (a == ("const", None)) != pol:
+                        skip = True
+                    continue
+                if t == v:
+                    if a[0] == "const" and bool(a[1]) != pol:
+                        skip = True
+                    continue
+            own.append(g)
+        if skip:
+            continue
+        binds = [ev for ev in cx.events if ev.kind == "bind" and ev.value == a and ev.seq < store.seq and v[0] == "phi"]
+        srcs = [ev for ev in binds if ev.extra == "inlined-return"] or binds[-1:]
+        if not srcs:
+            out.append(Cand(a, tuple(own), store.loops, store, None, False))
+            continue
+        for b in srcs:
+            gs = tuple(b.guards) + tuple(g for g in own if g not in b.guards)
+            out.append(Cand(a, gs, b.loops if len(b.loops) >= len(store.loops) else store.loops, store, b,
+                            b.extra == "inlined-return"))
+    return out
